@@ -45,6 +45,16 @@ GenJudge(e) ==
   ELSE IF e.raw # e.info.id THEN "CreateAcceptsInfoUnchanged"
   ELSE "ok"
 
+\* Growth (G06): encrypt -> create.  The four artifact files are wired into a manifest the way the NCS samples do (digest and
+\* size by file_direct, encryption info by file, encrypted content as integrated payload); a device that follows the manifest
+\* decrypts the integrated payload with the encryption info FOUND IN THE MANIFEST and compares with the digest / size parameters
+\* found there.  e = [pt, ptlen, dec, dg, size]
+InstallJudge(e) ==
+  IF e.dec # e.pt THEN "DeviceDecryptsIntegratedPayloadToFirmware"
+  ELSE IF e.dg # e.pt THEN "ManifestDigestDescribesPlaintext"
+  ELSE IF e.size # e.ptlen THEN "ManifestSizeDescribesPlaintext"
+  ELSE "ok"
+
 \* C14: IVs of one key are interned in order of first appearance, so an IV is fresh iff its id is the next one
 FreshJudge(next, iv) == IF iv # next THEN "FreshIvPerKey" ELSE "ok"
 =============================================================================
